@@ -62,7 +62,11 @@ class FakeSock:
     def close(self):
         self.closed = True
 
+    reset = False      # True: the peer has reset the connection, the kernel no longer knows a peer
+
     def getpeername(self):
+        if self.reset:
+            raise OSError(errno.ENOTCONN, "Transport endpoint is not connected")
         return self.peer
 
     def getsockname(self):
@@ -194,6 +198,52 @@ def c10_clienttls_handshake_raises():
         return True, "ClientTls.serviceConnect raised %r when the peer aborted the TLS handshake" % (ex,)
     return False, "handshake abort handled"
 
+
+
+def c10_reset_before_first_service_escapes():
+    """an accepted connection that its peer reset before Server.serviceAxes looked at it: getpeername() raises ENOTCONN"""
+    from hio.core.tcp import serving
+    srv = serving.Server(ha=("127.0.0.1", 0))
+    srv.eha = ("10.0.0.1", 5000)
+    dead, live = FakeSock(), FakeSock(peer=("10.0.0.10", 4001))
+    dead.reset = True
+    pend = [(dead, dead.peer), (live, live.peer)]
+    srv.serviceAccepts = lambda: [srv.axes.append(pend.pop(0)) for _ in range(len(pend))]
+    try:
+        srv.serviceAxes()
+    except OSError as ex:
+        return True, "Server.serviceAxes raised %r for a connection reset before its first service; the live one indexed=%s" % (ex, live.peer in srv.ixes)
+    ok = live.peer in srv.ixes and dead.closed and dead.peer not in srv.ixes
+    return (not ok), "reset connection dropped and closed=%s, live connection indexed=%s" % (dead.closed, live.peer in srv.ixes)
+
+
+def c10_tls_wirelog_getpeername_escapes():
+    """RemoterTls.receive / send asked the socket for its peer to label the wire log AFTER bytes moved: a peer that sent data and
+    then reset makes getpeername() raise ENOTCONN out of the service loop (Remoter uses .ca)"""
+    from hio.core.tcp import serving
+
+    class WL:
+        def writeRx(self, data, who=None):
+            pass
+
+        def writeTx(self, data, who=None):
+            pass
+    out = []
+    for op in ("receive", "send"):
+        cs = FakeSock([b"hello"])
+        cs.reset = True
+        wrap = serving.RemoterTls.wrap
+        serving.RemoterTls.wrap = lambda self: None
+        try:
+            rm = serving.RemoterTls(ha=("127.0.0.1", 1), ca=("127.0.0.1", 2), cs=cs, context=None, wl=WL())
+        finally:
+            serving.RemoterTls.wrap = wrap
+        rm.cs = cs
+        try:
+            rm.receive() if op == "receive" else rm.send(b"x")
+        except OSError as ex:
+            out.append("%s raised %r" % (op, ex))
+    return bool(out), "; ".join(out) or "wire log labelled with the connection's own address"
 
 
 def c07_backward_step_before_run():
